@@ -235,7 +235,11 @@ class PE(BinFormat):
                     vaddr = e.ImportAddressTableRVA + self.basemap
                     for x in e.ImportLookupTable.imports:
                         if x[0] == 0:
-                            ref = NameTableEntry(self.getdata(x[1]))
+                            try:
+                                ref = NameTableEntry(self.getdata(x[1]))
+                            except ValueError:
+                                logger.warning("invalid hint/name RVA in ImportLookupTable")
+                                ref = "?"
                         else:
                             ref = "#%s" % str(x[1])  # ordinal case
                         e.ImportAddressTable.append((vaddr, ref))
